@@ -185,7 +185,10 @@ func (p c09) sweep(c *fw.Ctx, src string) {
 type c09Tpl struct {
 	name string
 	src  string
-	want string // "" anything bounded, "depth" must be a max depth or deadline report
+	want string // "" anything bounded, "depth" must be a max depth or deadline report, "mem" peak memory must stay near the limit
+	// fixDur != 0: the (depth, deadline) pair at which the template reaches the state it is about; the quick tier runs
+	// exactly that pair (the thorough tier runs it besides the whole grid)
+	fixDepth, fixDur int
 }
 
 func c09Wrap(k int, inner string) string {
@@ -205,68 +208,74 @@ func c09Wrap(k int, inner string) string {
 
 func c09Templates() []c09Tpl {
 	t := []c09Tpl{
-		{"loop-empty", `for true {}`, ""},
-		{"loop-assign", `for true {x = [1, 2, 3]}`, ""},
-		{"loop-count", `for 9000000000 {}`, ""},
-		{"loop-var", `for i = 9000000000 {}`, ""},
-		{"loop-range", `for i = 0:9000000000 {}`, ""},
-		{"loop-alloc-string", `s = "x"; for true {s = s + "y"}`, ""},
-		{"loop-ext", `for true {sqrt(2.0)}`, ""},
-		{"loop-sleep-short", `for true {sleep(0.001)}`, ""},
-		{"sleep-long", `sleep(1000)`, ""},
-		{"loop-map-grow", `m = {}; for i = 9000000000 {m[i] = i}`, ""},
-		{"double-string", `s = "x"; for 70 {s = s + s}; len(s)`, ""},
-		{"double-array", `a = [1]; for 70 {a = a + a}; len(a)`, ""},
-		{"double-map-values", `m = {"k": [1]}; for 70 {m.k = m.k + m.k}; len(m.k)`, ""},
-		{"repeat-string-huge", `len("x" * 1099511627776)`, ""},
-		{"repeat-array-huge", `len([1] * 1099511627776)`, ""},
-		{"range-huge", `len(0:1099511627776)`, ""},
-		{"repeat-string-big-print", `println("x" * 50000000)`, ""},
-		{"join-big", `a = ["xxxxxxxxxxxxxxxx"] * 10000000; len(join(a, ","))`, ""},
-		{"runes-big", `len(runes("x" * 100000000))`, ""},
-		{"split-big", `len(split("x" * 100000000))`, ""},
-		{"sprintf-width", `len(sprintf("%*d", 1073741824, 1))`, ""},
-		{"nest-value-array", `a = []; for 3000000 {a = [a]}; a`, ""},
-		{"nest-value-map", `m = {}; for 3000000 {m = {"k": m}}; m == m`, ""},
-		{"nest-value-print", `a = []; for 3000000 {a = [a]}; println(a)`, ""},
-		{"eval-recursion", `func f() {eval("f()")}; f()`, "depth"},
-		{"mutual", `func a(n) {b(n + 1)}; func b(n) {a(n + 1)}; a(0)`, "depth"},
-		{"closure-rec", `g = n => g(n + 1); g(0)`, "depth"},
-		{"self-rec", `(n => self(n + 1))(0)`, "depth"},
-		{"unjson-loop", `unjson("for true {}")`, ""},
-		{"eval-loop", `eval("for true {}")`, ""},
-		{"unjson-grow", `unjson("s = \"x\"; for 70 {s = s + s}; len(s)")`, ""},
+		{"loop-empty", `for true {}`, "", 0, 0},
+		{"loop-assign", `for true {x = [1, 2, 3]}`, "", 0, 0},
+		{"loop-count", `for 9000000000 {}`, "", 0, 0},
+		{"loop-var", `for i = 9000000000 {}`, "", 0, 0},
+		{"loop-range", `for i = 0:9000000000 {}`, "", 0, 0},
+		{"loop-alloc-string", `s = "x"; for true {s = s + "y"}`, "", 0, 0},
+		{"loop-ext", `for true {sqrt(2.0)}`, "", 0, 0},
+		{"loop-sleep-short", `for true {sleep(0.001)}`, "", 0, 0},
+		{"sleep-long", `sleep(1000)`, "", 0, 0},
+		{"loop-map-grow", `m = {}; for i = 9000000000 {m[i] = i}`, "", 0, 0},
+		{"double-string", `s = "x"; for 70 {s = s + s}; len(s)`, "", 0, 0},
+		{"double-array", `a = [1]; for 70 {a = a + a}; len(a)`, "", 0, 0},
+		{"double-map-values", `m = {"k": [1]}; for 70 {m.k = m.k + m.k}; len(m.k)`, "", 0, 0},
+		{"repeat-string-huge", `len("x" * 1099511627776)`, "", 0, 0},
+		{"repeat-array-huge", `len([1] * 1099511627776)`, "", 0, 0},
+		{"range-huge", `len(0:1099511627776)`, "", 0, 0},
+		{"repeat-string-big-print", `println("x" * 50000000)`, "", 0, 0},
+		{"join-big", `a = ["xxxxxxxxxxxxxxxx"] * 10000000; len(join(a, ","))`, "", 0, 0},
+		{"runes-big", `len(runes("x" * 100000000))`, "", 0, 0},
+		{"split-big", `len(split("x" * 100000000))`, "", 0, 0},
+		{"sprintf-width", `len(sprintf("%*d", 1073741824, 1))`, "", 0, 0},
+		{"nest-value-array", `a = []; for 3000000 {a = [a]}; a`, "", 0, 0},
+		{"nest-value-map", `m = {}; for 3000000 {m = {"k": m}}; m == m`, "", 0, 0},
+		{"nest-value-print", `a = []; for 3000000 {a = [a]}; println(a)`, "", 0, 0},
+		{"eval-recursion", `func f() {eval("f()")}; f()`, "depth", 0, 0},
+		{"mutual", `func a(n) {b(n + 1)}; func b(n) {a(n + 1)}; a(0)`, "depth", 0, 0},
+		{"closure-rec", `g = n => g(n + 1); g(0)`, "depth", 0, 0},
+		{"self-rec", `(n => self(n + 1))(0)`, "depth", 0, 0},
+		// many kept-alive results of guarded operations, each small compared with what is free when the first one is made
+		{"accumulate-300", `b = [0] * 300; l = []; for i = 60000 {l = l + [b + []]}; len(l)`, "mem", 100, 20000},
+		{"accumulate-40k", `b = [0] * 40000; l = []; for i = 1500 {l = l + [b + []]}; len(l)`, "mem", 100, 20000},
+		{"accumulate-1m", `b = [0] * 1000000; l = []; for i = 60 {l = l + [b + []]}; len(l)`, "mem", 100, 20000},
+		{"accumulate-str", `b = "x" * 100000; m = {}; for i = 9000 {m[i] = b + "y"}; len(m)`, "mem", 100, 20000},
+		{"accumulate-range", `l = []; for i = 12000 {l = l + [0:5000]}; len(l)`, "mem", 100, 20000},
+		{"unjson-loop", `unjson("for true {}")`, "", 100, 100},
+		{"eval-loop", `eval("for true {}")`, "", 100, 100},
+		{"unjson-grow", `unjson("s = \"x\"; for 70 {s = s + s}; len(s)")`, "", 100, 1000},
 		// values nested as deep as a loop can make them before the deadline, handed to everything that recurses on them
-		{"nest-1m-print", `a = []; for 1000000 {a = [a]}; print(a)`, ""},
-		{"nest-300k-result", `a = []; for 300000 {a = [a]}; a`, ""},
-		{"nest-600k-sprintf", `a = []; for 600000 {a = [a]}; len(sprintf("%v", a))`, ""},
-		{"nest-1m-json-go", `a = []; for 1000000 {a = [a]}; len(json_go(a))`, ""},
-		{"nest-1m-json", `a = []; for 1000000 {a = [a]}; len(json(a))`, ""},
-		{"nest-1m-eq", `a = []; for 1000000 {a = [a]}; b = a; [a == b, a < b]`, ""},
-		{"nest-1m-mapkey", `a = []; for 1000000 {a = [a]}; m = {a: 1}; len(m)`, ""},
-		{"nest-1m-arg", `a = []; for 1000000 {a = [a]}; func f(x) {1}; f(a) + f(a)`, ""},
-		{"nest-1m-error", `a = []; for 1000000 {a = [a]}; error(a)`, ""},
-		{"nest-500k-map", `m = {}; for 500000 {m = {"k": [m]}}; println(m)`, ""},
-		{"nest-500k-str", `m = {}; for 500000 {m = {"k": m}}; len(str(m))`, ""},
-		{"sprintf-double", `s = "aaaaaaaaaaaaaaaa"; for 40 {s = sprintf("%s%s", s, s)}; len(s)`, ""},
-		{"print-buffer", `s = "x" * 1000000; func f() {for true {print(s)}}; f()`, ""},
-		{"unrestricted-run-then-loop", `run("true"); for true {}`, ""},
-		{"unrestricted-exec-then-loop", `exec("true"); for true {}`, ""},
-		{"macro-loop", `m = macro(x) {for true {}}; m(1)`, ""},
-		{"macro-rec", `m = macro(x) {func r(n) {r(n + 1)}; r(0)}; m(1)`, ""},
+		{"nest-1m-print", `a = []; for 1000000 {a = [a]}; print(a)`, "", 100, 1000},
+		{"nest-300k-result", `a = []; for 300000 {a = [a]}; a`, "", 100, 1000},
+		{"nest-600k-sprintf", `a = []; for 600000 {a = [a]}; len(sprintf("%v", a))`, "", 100, 1000},
+		{"nest-1m-json-go", `a = []; for 1000000 {a = [a]}; len(json_go(a))`, "", 100, 1000},
+		{"nest-1m-json", `a = []; for 1000000 {a = [a]}; len(json(a))`, "", 100, 1000},
+		{"nest-1m-eq", `a = []; for 1000000 {a = [a]}; b = a; [a == b, a < b]`, "", 100, 1000},
+		{"nest-1m-mapkey", `a = []; for 1000000 {a = [a]}; m = {a: 1}; len(m)`, "", 100, 1000},
+		{"nest-1m-arg", `a = []; for 1000000 {a = [a]}; func f(x) {1}; f(a) + f(a)`, "", 100, 1000},
+		{"nest-1m-error", `a = []; for 1000000 {a = [a]}; error(a)`, "", 100, 1000},
+		{"nest-500k-map", `m = {}; for 500000 {m = {"k": [m]}}; println(m)`, "", 100, 1000},
+		{"nest-500k-str", `m = {}; for 500000 {m = {"k": m}}; len(str(m))`, "", 100, 1000},
+		{"sprintf-double", `s = "aaaaaaaaaaaaaaaa"; for 40 {s = sprintf("%s%s", s, s)}; len(s)`, "", 100, 1000},
+		{"print-buffer", `s = "x" * 1000000; func f() {for true {print(s)}}; f()`, "", 100, 1000},
+		{"unrestricted-run-then-loop", `run("true"); for true {}`, "", 100, 100},
+		{"unrestricted-exec-then-loop", `exec("true"); for true {}`, "", 100, 100},
+		{"macro-loop", `m = macro(x) {for true {}}; m(1)`, "", 0, 0},
+		{"macro-rec", `m = macro(x) {func r(n) {r(n + 1)}; r(0)}; m(1)`, "", 0, 0},
 	}
 	for _, k := range []int{0, 5, 20, 60} {
-		t = append(t, c09Tpl{fmt.Sprintf("rec-wrapped-%d", k), "func f(n) {" + c09Wrap(k, "f(n + 1)") + "}; f(0)", "depth"})
+		t = append(t, c09Tpl{fmt.Sprintf("rec-wrapped-%d", k), "func f(n) {" + c09Wrap(k, "f(n + 1)") + "}; f(0)", "depth", 0, 0})
 	}
 	for _, n := range []int{100, 9000, 11000, 100000, 2000000} {
 		t = append(t,
-			c09Tpl{fmt.Sprintf("deep-parens-%d", n), strings.Repeat("(", n) + "1" + strings.Repeat(")", n), ""},
-			c09Tpl{fmt.Sprintf("deep-brackets-%d", n), strings.Repeat("[", n) + "1" + strings.Repeat("]", n), ""},
-			c09Tpl{fmt.Sprintf("deep-prefix-%d", n), strings.Repeat("-", n) + "1", ""},
-			c09Tpl{fmt.Sprintf("deep-if-%d", n), strings.Repeat("if true {", n) + "1" + strings.Repeat("}", n), ""},
-			c09Tpl{fmt.Sprintf("deep-chain-%d", n), "1" + strings.Repeat("+1", n), ""},
-			c09Tpl{fmt.Sprintf("deep-lambda-%d", n), strings.Repeat("x=>", n) + "1", ""},
-			c09Tpl{fmt.Sprintf("deep-map-%d", n), strings.Repeat("{1:", n) + "1" + strings.Repeat("}", n), ""})
+			c09Tpl{fmt.Sprintf("deep-parens-%d", n), strings.Repeat("(", n) + "1" + strings.Repeat(")", n), "", 0, 0},
+			c09Tpl{fmt.Sprintf("deep-brackets-%d", n), strings.Repeat("[", n) + "1" + strings.Repeat("]", n), "", 0, 0},
+			c09Tpl{fmt.Sprintf("deep-prefix-%d", n), strings.Repeat("-", n) + "1", "", 0, 0},
+			c09Tpl{fmt.Sprintf("deep-if-%d", n), strings.Repeat("if true {", n) + "1" + strings.Repeat("}", n), "", 0, 0},
+			c09Tpl{fmt.Sprintf("deep-chain-%d", n), "1" + strings.Repeat("+1", n), "", 0, 0},
+			c09Tpl{fmt.Sprintf("deep-lambda-%d", n), strings.Repeat("x=>", n) + "1", "", 0, 0},
+			c09Tpl{fmt.Sprintf("deep-map-%d", n), strings.Repeat("{1:", n) + "1" + strings.Repeat("}", n), "", 0, 0})
 	}
 	return t
 }
@@ -376,6 +385,10 @@ func (p c09) child(c *fw.Ctx, t c09Tpl, depth, durMs int, dir string) (kind, det
 	if co.ElapsedMs > int64(durMs)+5000 {
 		return "late", fmt.Sprintf("returned after %d ms with a %d ms deadline (errors: %s)", co.ElapsedMs, durMs, clip(errText)), guard
 	}
+	if t.want == "mem" && co.HWMkB > (256*3/2+64)*1024 {
+		// these programs only keep results of guarded operators alive: the guard must stop them near the limit
+		return "memory", fmt.Sprintf("peak resident %d MiB with a 256 MiB limit although everything allocated goes through the memory guard (errors: %s)", co.HWMkB/1024, clip(errText)), guard
+	}
 	if co.HWMkB > (4*256+128)*1024 {
 		return "memory", fmt.Sprintf("peak resident %d MiB with a 256 MiB limit (errors: %s)", co.HWMkB/1024, clip(errText)), guard
 	}
@@ -429,13 +442,30 @@ func (p c09) RunBatch(c *fw.Ctx) {
 	depths := []int{10, 100, 10000, 0}
 	durs := []int{1, 3, 10, 30, 100, 300, 1000}
 	idx := 0
+	type pair struct{ d, du int }
 	for ti, t := range tpls {
+		var pairs []pair
+		if t.fixDur != 0 {
+			pairs = append(pairs, pair{t.fixDepth, t.fixDur})
+		}
 		for _, d := range depths {
 			for _, du := range durs {
+				pairs = append(pairs, pair{d, du})
+			}
+		}
+		for pi, pr := range pairs {
+			{
+				d, du := pr.d, pr.du
 				idx++
-				// quick: one (depth, duration) pair per template, rotating; thorough: the whole grid
-				if c.Quick() && (idx+ti)%(len(depths)*len(durs)) != 0 {
-					continue
+				// quick: the template's own pair if it has one, else one (depth, duration) pair of the grid, rotating;
+				// thorough: everything
+				if c.Quick() {
+					if t.fixDur != 0 && pi != 0 {
+						continue
+					}
+					if t.fixDur == 0 && (idx+ti)%(len(depths)*len(durs)) != 0 {
+						continue
+					}
 				}
 				if idx%c.NBatches != c.Batch {
 					continue
